@@ -1,4 +1,55 @@
-From Coq Require Import ZArith List Bool.
-From PW Require Import Model.Base Model.VerifyReg.
-Theorem C05_placeholder : True. Proof. exact I. Qed.
-Print Assumptions C05_placeholder.
+(* C05 — Completeness and fidelity: conformant ceremonies accepted, reported exactly. *)
+From Coq Require Import ZArith List Bool String.
+From PW Require Import Model.Base Model.SigTypes Model.Cbor Model.AuthData Model.Oracles Model.CredJson Model.Cose Model.SigAlg Model.Tpm
+  Model.Formats Model.VerifyAuth Model.VerifyReg Generated.Constants Spec.SigSpec Spec.AuthSpec Spec.RegSpec Spec.TpmSpec Spec.FormatSpec
+  Proofs.AuthProofs Proofs.RegProofs Proofs.FormatProofs.
+Import ListNotations.
+Open Scope Z_scope.
+
+(* fidelity: what registration reports is exactly what the authenticator data says *)
+Theorem C05_fidelity_reg : forall O P c r, verify_reg_rec O P c = Ok r ->
+  exists ao att fmt, parse_att_object (rcr_att_obj c) = Ok ao /\ ad_att (ao_auth_data ao) = Some att /\ ao_fmt ao = CText fmt /\
+    vr_cred_id r = ac_cred_id att /\ vr_pubkey r = ac_pubkey att /\
+    vr_count r = be_int (slice 33 37 (ao_auth_data_raw ao)) /\
+    aaguid_to_string (ac_aaguid att) = Ok (vr_aaguid r) /\ vr_fmt r = fmt /\
+    vr_att_obj r = rcr_att_obj c /\ vr_type r = public_key_s.
+Proof. exact reg_fidelity. Qed.
+Print Assumptions C05_fidelity_reg.
+
+Theorem C05_fidelity_flags_reg : forall O P c r, verify_reg_rec O P c = Ok r ->
+  exists ao, parse_att_object (rcr_att_obj c) = Ok ao /\
+  let f := nth 32 (ao_auth_data_raw ao) 0 in
+  (rp_require_up P = true -> flag f 0 = true) /\ (rp_require_uv P = true -> flag f 2 = true) /\
+  flag f 6 = true /\ (flag f 4 = true -> flag f 3 = true) /\
+  vr_uv r = flag f 2 /\ vr_multi_device r = flag f 3 /\ vr_backed_up r = flag f 4.
+Proof. exact reg_flag_table. Qed.
+Print Assumptions C05_fidelity_flags_reg.
+
+Theorem C05_fidelity_auth : forall O P c r, verify_auth_rec O P c = Ok r ->
+  va_cred_id r = acr_raw_id c /\ va_new_count r = be_int (slice 33 37 (acr_auth_data c)) /\
+  let f := nth 32 (acr_auth_data c) 0 in va_uv r = flag f 2 /\ va_multi_device r = flag f 3 /\ va_backed_up r = flag f 4.
+Proof.
+  intros O P c r H. pose proof (auth_flag_table O P c r H) as (_ & _ & _ & A & B & C).
+  apply verify_auth_rec_sound in H. destruct H as [_ _ _ (ad & h & Had & _ & _ & _ & _ & _ & _ & ->) _].
+  apply parse_auth_data_header in Had as (_ & _ & _ & Hc). cbn in *. auto.
+Qed.
+Print Assumptions C05_fidelity_auth.
+
+(* completeness: every ceremony meeting the declarative predicate IS accepted (authentication: for all
+   algorithms, flags, counters, extensions, extra client-data members - whatever makes the predicate true) *)
+Theorem C05_complete_auth : forall O P c r, AuthAccepted O P c r -> verify_auth_rec O P c = Ok r.
+Proof. exact verify_auth_rec_complete. Qed.
+Print Assumptions C05_complete_auth.
+
+Theorem C05_complete_reg : forall O P c r, RegAccepted O P c r -> verify_reg_rec O P c = Ok r.
+Proof. exact verify_reg_rec_complete. Qed.
+Print Assumptions C05_complete_reg.
+
+(* table obligations on the regenerated constants *)
+Definition in_list_str (s : string) (l : list string) : bool := existsb (String.eqb s) l.
+Theorem C05_tables :
+  default_algs_generator = spec_default_algs /\ default_algs_verifier = spec_default_algs /\
+  forallb (fun a => existsb (fun k => match spec_scheme k a with Some _ => true | None => false end) [KEC; KRSA; KED]) spec_default_algs = true /\
+  forallb (fun v => in_list_str v tpm_manufacturers) tcg_vendor_registry = true.
+Proof. vm_compute. repeat split. Qed.
+Print Assumptions C05_tables.
